@@ -102,7 +102,7 @@ var Properties = map[string]PropDef{
 	"C07": {
 		ID: "C07", AssertPrefix: "C07.", Bounds: ruleBounds, Assumptions: ruleAssumptions,
 		Outside:   "whole programs beyond one rule instance and its declaration context; forms nested deeper than one rule (covered inductively by probes); explicit polarities; more than 2 branches",
-		Harnesses: ruleHarnesses(),
+		Harnesses: append(ruleHarnesses(), HarnessDef{Name: "zzpub.ZZRunIllTyped", Depth: 400, Loop: 3000, Sched: true}, HarnessDef{Name: "zzpub.ZZMenuVerdicts", Depth: 400, Loop: 3000}),
 	},
 	"C05": {
 		ID: "C05", AssertPrefix: "C05.", Bounds: ruleBounds, Assumptions: ruleAssumptions,
@@ -127,6 +127,8 @@ var Properties = map[string]PropDef{
 			{Name: "process.ZZC14FreeNamesRuntime"},
 			{Name: "process.ZZC14Copy"},
 			{Name: "process.ZZC14DeclOrder", Quick: map[string]int{"K": 1, "D": 1, "G": 0, "NP": 1, "PD": 0}},
+			{Name: "zzpub.ZZMenuVerdicts", Depth: 400, Loop: 3000},
+			{Name: "zzpub.ZZRunMenu", Quick: map[string]int{"MODES": 3, "RESPELLED": 1}, Depth: 400, Loop: 3000, MaxPaths: 3000000, Sched: true, Note: "whole runs of the respelled menu programs (binders that re-use the spelling of a consumed name) under every schedule"},
 		},
 	},
 	"C18": {
@@ -162,7 +164,7 @@ var Properties = map[string]PropDef{
 		Bounds:      "one principal cut: channel type A of depth<=1 over K<=1 type names (quick K=0, thorough K=1), provider form P among 7, client form Q among 7, both accepted by the real typecheckForm (probes accepting), labels over {l,m,n}; executed in polarised asynchronous and synchronous mode; the same cut with one forward `fwd self c` between the two sides, typed by the real forward rule (asynchronous mode), which also exercises the FWD control message at a receiving provider",
 		Assumptions: []string{"the hypothesis is the real typechecker's verdict (vn.Assume(accepted)); the forms are then rebuilt over initialised channels and run on the engine's goroutine/channel model", "run-to-completion scheduling: the receiver blocks, the sender runs, the receiver resumes"},
 		Outside:     "PARTIAL: closed programs with more than one cut, all schedules, GOMAXPROCS, monitor, the non-polarised mode, more than one forward, duplication / drop between the two sides",
-		Harnesses:   []HarnessDef{{Name: "process.ZZC01Cut", Quick: map[string]int{"K": 0}, Thorough: map[string]int{"K": 1}}, {Name: "process.ZZC01CutFwd", Quick: map[string]int{"K": 0, "D": 1}, Thorough: map[string]int{"K": 1}}, runMenuHarness()},
+		Harnesses:   []HarnessDef{{Name: "process.ZZC01Cut", Quick: map[string]int{"K": 0}, Thorough: map[string]int{"K": 1}}, {Name: "process.ZZC01CutFwd", Quick: map[string]int{"K": 0, "D": 1}, Thorough: map[string]int{"K": 1}}, runMenuHarness(), {Name: "zzpub.ZZRunIllTyped", Depth: 400, Loop: 3000, Sched: true}},
 	},
 	"C13": {
 		ID: "C13", AssertPrefix: "C13.", RaceReplay: true,
@@ -194,6 +196,7 @@ var Properties = map[string]PropDef{
 			{Name: "parser.ZZC19ParseTwice", Quick: map[string]int{"N1": 1, "N2": 2}, Thorough: map[string]int{"N1": 2, "N2": 2}, Depth: 100, Loop: 100, MaxPaths: 3000000},
 			{Name: "process.ZZC19TypecheckTwice"},
 			{Name: "types.ZZC19EqualAfterHistory", Quick: map[string]int{"K": 2, "D": 0}, Thorough: map[string]int{"K": 2, "D": 1}, Depth: 200},
+			{Name: "zzpub.ZZRunTwice", Depth: 400, Loop: 3000, MaxPaths: 3000000, Sched: true, Note: "two whole runs in one heap: 7 first programs (accepted, rejected, unparseable) x 5 second programs x polarised modes, every schedule of both"},
 		},
 	},
 	"C06": {
@@ -278,6 +281,7 @@ func c09Harnesses() []HarnessDef {
 		hs = append(hs, h)
 	}
 	hs = append(hs, HarnessDef{Name: "process.ZZC09Worker"})
+	hs = append(hs, HarnessDef{Name: "zzpub.ZZMenuVerdicts", Depth: 400, Loop: 3000})
 	hs = append(hs, HarnessDef{Name: "types.ZZC08Cost", Quick: map[string]int{"N": 4}, Thorough: map[string]int{"N": 6}, Depth: 300})
 	hs = append(hs, HarnessDef{Name: "zzpub.ZZC09Program", Depth: 300, Loop: 2000})
 	hs = append(hs, HarnessDef{Name: "types.ZZC09Accepted", Quick: map[string]int{"K": 2, "D": 1}, Depth: 200})
